@@ -30,6 +30,24 @@ struct counting : normal< Rule >
    }
 };
 
+// a user-defined rule registered the way doc/Grammar-Analysis.md describes: consumes by itself ( the ';' ) and has a sub-rule
+template< typename R >
+struct terminated
+{
+   using rule_t = terminated;
+   using subs_t = type_list< R >;
+   template< apply_mode A, rewind_mode M, template< typename... > class Action, template< typename... > class Control, typename In, typename... St >
+   [[nodiscard]] static bool match( In& in, St&&... st )
+   {
+      return Control< seq< R, one< ';' > > >::template match< A, M, Action, Control >( in, st... );
+   }
+};
+namespace tao::pegtl
+{
+   template< typename Name, typename R >
+   struct analyze_traits< Name, terminated< R > > : analyze_any_traits< R > {};
+}  // namespace tao::pegtl
+
 using raw0 = raw_string< '[', '=', ']' >;
 namespace g
 {
@@ -69,6 +87,16 @@ namespace g
    struct i3 : seq< maximum_rule< std::uint8_t >, opt< one< '.' >, i3 > > {};
    struct i4;
    struct i4 : sor< seq< i4, one< '+' >, unsigned_rule >, unsigned_rule > {};
+   // bounded integer rules with small maxima inside repetitions (always-consuming by their traits: a zero-length success would loop)
+   struct i5 : star< maximum_rule< std::uint8_t, 5 >, opt< one< ',' > > > {};
+   struct i6 : seq< plus< sor< maximum_rule< std::uint64_t, 0 >, one< ',' > > >, eof > {};
+   struct i7 : star< sor< maximum_rule< std::uint16_t, 9 >, seq< digit, digit > > > {};
+   // cycles that pass through a user-defined rule with analyze_any_traits< SubRule >
+   struct e1;
+   struct e1 : terminated< sor< seq< e1, one< '+' >, digit >, digit > > {};
+   struct e2;
+   struct e2 : seq< opt< digit >, terminated< star< e2 > > > {};
+   struct e3 : star< terminated< opt< digit > > > {};     // fine: every iteration consumes the ';'
    // rule names that contain the delimiters of the compiler's pretty-function text ( ; = ] > , ' ): the analysis keys its
    // table by the demangled rule name, so two different rules must never share a key; in each grammar the first repetition
    // is fine and the second one (same text up to the literal) has a nullable body
@@ -162,6 +190,12 @@ int main( int argc, char** argv )
    one_grammar< g::i2 >( 20, "-1a", ml + 1, {} );
    one_grammar< g::i3 >( 21, "12.", ml + 2, {} );
    one_grammar< g::i4 >( 22, "1+", ml + 1, {} );
+   one_grammar< g::i5 >( 31, "7,1", ml + 1, {} );
+   one_grammar< g::i6 >( 32, "0,1", ml + 1, {} );
+   one_grammar< g::i7 >( 33, "19", ml + 1, { "99", "909", "1000" } );
+   one_grammar< g::e1 >( 34, "1;+", ml + 1, { "1;x", "1+2;" } );
+   one_grammar< g::e2 >( 35, "1;", ml + 1, {} );
+   one_grammar< g::e3 >( 36, "1;", ml + 1, {} );
    one_grammar< g::n1 >( 23, "a;", ml, {} );
    one_grammar< g::n2 >( 24, "a]", ml, {} );
    one_grammar< g::n3 >( 25, "a=", ml, {} );
